@@ -19,7 +19,7 @@ if TYPE_CHECKING:
     from jax2onnx.converter.ir_context import IRContext
 
 
-CacheKey = Union[str, int]
+CacheKey = Union[str, int, tuple[str, str]]
 OperandsTuple = tuple[DimExprLike | int, ...]
 TermWithMultiplier: TypeAlias = DimTermWithCoeff
 
@@ -121,8 +121,8 @@ class LowerDimExpr:
         return result_value
 
     def _lower_factor(self, factor: DimFactorWithPower) -> ir.Value:
-        if str(factor) in self.compute_cache:
-            return self.compute_cache[str(factor)]
+        if ("factor", str(factor)) in self.compute_cache:
+            return self.compute_cache[("factor", str(factor))]
 
         if factor[0].operation is None:
             var_name = factor[0].var
@@ -149,12 +149,12 @@ class LowerDimExpr:
             )
             self._set_metadata(result_value)
 
-        self.compute_cache[str(factor)] = result_value
+        self.compute_cache[("factor", str(factor))] = result_value
         return result_value
 
     def _lower_term(self, term: DimTermLike) -> ir.Value:
-        if str(term) in self.compute_cache:
-            return self.compute_cache[str(term)]
+        if ("term", str(term)) in self.compute_cache:
+            return self.compute_cache[("term", str(term))]
 
         if len(term._factors) == 0:
             result_value = self._get_scalar(1)
@@ -172,12 +172,12 @@ class LowerDimExpr:
                 )
                 self._set_metadata(result_value)
 
-        self.compute_cache[str(term)] = result_value
+        self.compute_cache[("term", str(term))] = result_value
         return result_value
 
     def _lower_term_with_mult(self, term: DimTermWithCoeff) -> ir.Value:
-        if str(term) in self.compute_cache:
-            return self.compute_cache[str(term)]
+        if ("term_with_coeff", str(term)) in self.compute_cache:
+            return self.compute_cache[("term_with_coeff", str(term))]
 
         if term[0].is_constant and str(term[0]) == "":
             result_value = self._get_scalar(term[1])
@@ -195,15 +195,15 @@ class LowerDimExpr:
                 )
                 self._set_metadata(result_value)
 
-        self.compute_cache[str(term)] = result_value
+        self.compute_cache[("term_with_coeff", str(term))] = result_value
         return result_value
 
     def _lower_expr(self, expr: DimExprLike | int) -> ir.Value:
         if isinstance(expr, int):
             return self._get_scalar(expr)
 
-        if str(expr) in self.compute_cache:
-            return self.compute_cache[str(expr)]
+        if ("expr", str(expr)) in self.compute_cache:
+            return self.compute_cache[("expr", str(expr))]
 
         terms: tuple[TermWithMultiplier, ...] = expr._sorted_terms
         result_value = self._lower_term_with_mult(terms[0])
@@ -219,7 +219,7 @@ class LowerDimExpr:
             )
             self._set_metadata(result_value)
 
-        self.compute_cache[str(expr)] = result_value
+        self.compute_cache[("expr", str(expr))] = result_value
         return result_value
 
     def __call__(self, exprs: list[DimExprLike | int | ir.Value]) -> ir.Value:
